@@ -79,6 +79,14 @@ def grids(draw, classes=GRIDS, nmax=4, nmax3=3, nmin=1, spacings=('uniform', 'ra
     faces = []
     sp_all = draw(st.sampled_from(list(spacings))) if same_spacing else None
     sps = []
+    if 'uniform' in spacings and r0_mode != 'offset' and draw(st.integers(0, 5)) == 0:
+        # equispaced from 0 on every axis: the grid both constructor forms can express
+        for k in kinds:
+            n = draw(st.integers(nmin, top))
+            L = draw(st.sampled_from(dict(x=[1.0, 0.5, 3.0], r=[1.0, 0.5, 2.0], thc=[TWO_PI, 1.0, 2.0], ph=[TWO_PI, 1.0, 2.0], ths=[1.0, 2.0, 3.0])[k]))
+            faces.append([float(x) for x in (np.arange(n + 1) * (L / n))])
+            sps.append('uniform')
+        return dict(name=name, faces=faces, spacing=sps)
     for k in kinds:
         n = draw(st.integers(nmin, top))
         sp = sp_all or draw(st.sampled_from(list(spacings)))
